@@ -11,7 +11,9 @@ THEOREMS = ["Mpir.C07x.gcdext_1_bounds", "Mpir.C07x.gcdext_hook_correct", "Mpir.
             "Mpir.C07x.mpz_gcdext_correct_partial", "Mpir.C07x.mpz_invert_correct_partial"]
 TRUSTED = ["hand-written models lean/Mpir/Model/Gcdext.lean of mpn_gcdext_hook / mpn_gcdext_lehmer_n / mpn_gcdext (values exact, size fields and "
            "a flag for stores outside a buffer tracked), tied by exact comparison of {gp,gn}, *usize, {up,|*usize|} on every run"]
-ASSUMPTIONS = ["mpn_gcdext for n >= GCDEXT_DC_THRESHOLD: the divide-and-conquer model (dcFirst/dcLoop/dcFinish with hgcd_mul_matrix_vector and compute_v) is "
+ASSUMPTIONS = ["the branch `u0[0] == 0 && un == 1` after the dc loop of mpn_gcdext (gcdext.c:438) is modelled but cannot be reached under the documented precondition "
+               "bp[n-1] != 0: b is never reduced while u0 = 0, so n stays >= GCDEXT_DC_THRESHOLD (dead code, not a defect)",
+               "mpn_gcdext for n >= GCDEXT_DC_THRESHOLD: the divide-and-conquer model (dcFirst/dcLoop/dcFinish with hgcd_mul_matrix_vector and compute_v) is "
                "compared exactly and its output checked against the contract (mpn_gcdext_sz_p) on every run; its proof from mpn_hgcd_correct_partial is not done — "
                "the unconditional mpz theorems use the value-level model Mpir.Gcd.mpn_gcdext, which in that range returns the canonical cofactor by definition"]
 RULE_GCDEXT = ("cofactor layer: hook called with (u0, u1) at every size relation, one-limb q in {1, 2, B-1}, multi-limb q with a zero top limb, zero u1; "
@@ -60,6 +62,20 @@ def special_pairs(rng, n):
     out.append(chain(rng, n, huge=0.7))
     out.append(chain(rng, n, g=base.rand_nat(rng, max(1, n // 3)) | 1, huge=0.4))
     return [(a, b) for a, b in out if b > 0 and nl(b) == n and a >= 1 and nl(a) >= n]
+
+
+def dc_exit_div(rng, DC, flip):
+    """(A, B), both >= DC limbs, whose remainder chain passes ... r2 (>= DC limbs), r1 = q g (DC/2 limbs), g: the dc loop of
+    mpn_gcdext is left with the pair {r1, g}, one dividing the other, so the Lehmer call returns cofactor 0 (lehmer_un == 0)
+    or 1 with v = 0 (compute_v returns 0), depending on the orientation (`flip` adds one more step)."""
+    h = max(2, DC // 2)              # r1 so short that mpn_hgcd on the top 2n/3 limbs of (r1, r2) fails: a subdiv step divides r2 by r1
+    g = base.rand_nat(rng, rng.randrange(1, max(2, h // 2))) | 1
+    q = (1 << (64 * h - 1 - rng.randrange(60))) // g + rng.getrandbits(20) + 2
+    r1 = q * g
+    r2 = (rng.getrandbits(64 * (DC - h + 1)) | 1 << (64 * (DC - h + 1) - 1)) * r1 + g
+    r3 = rng.randrange(1, 4) * r2 + r1
+    if flip: r2, r3 = r3, rng.randrange(1, 4) * r3 + r2
+    return r3, r2
 
 def gen_ops(rng, tier, ctx=None):
     th = base.thresholds(ctx)
@@ -135,6 +151,8 @@ def gen_ops(rng, tier, ctx=None):
                 x = base.rand_nat(rng, n) | 1 << (64 * n - 1)
                 pairs.append((x + rng.getrandbits(64 * 3), x))       # difference small: subdiv steps at full size
                 pairs.append((base.rand_nat(rng, n + 3) | 1 << (64 * (n + 3) - 1), x))
+            if n in (DC, DC + 1):
+                for flip in (0, 1): pairs.append(dc_exit_div(rng, DC, flip))
             for a, b in pairs:
                 if b <= 0 or nl(b) != n or nl(a) < n:
                     if b > 0 and nl(b) >= DC - 2 and nl(a) >= nl(b): pass
